@@ -180,12 +180,19 @@ package flamego
 //@   modifies c.(*context).responseWriter.isWritten
 //@   ensures old(c.(*context).responseWriter.isWritten) ==> c.(*context).responseWriter.isWritten
 
+// (C14) every invocation that returned something has its values handed to the return handler before anything else happens
+//@ ghost field context.pendingVals bool   // the handler just invoked returned values that have not been rendered yet
 //@ func (*context).run
 //@   props C03 C05 C04 C15 C14
+//@   requires[C14] !c.pendingVals
+//@   ghost after Invoke#0: c.pendingVals = len(callresult(Invoke#0, 0)) > 0
+//@   ghost before handleReturn#0: c.pendingVals = false
+//@   ensures[C14] !c.pendingVals
+//@   loop 0 invariant[C14] !c.pendingVals
 //@   skip typeassert nil@call:handleReturn
 //@   call Invoke#0 as handlerCallback(c, h)
 //@   requires ctxInv(c)
-//@   modifies c.index, c.started, c.responseWriter.isWritten, c.request.Request
+//@   modifies c.index, c.started, c.responseWriter.isWritten, c.request.Request, c.pendingVals
 //@   panics true
 //@   assert before Invoke#0: c.started <= len(c.handlers) && h == chainSlot(c, c.started)
 //@   assert before Invoke#0: lastselect() != 0
@@ -208,7 +215,9 @@ package flamego
 //@ func (*context).Next
 //@   props C03 C05 C15
 //@   requires ctxInv(c)
-//@   modifies c.index, c.started, c.responseWriter.isWritten, c.request.Request
+//@   requires[C14] !c.pendingVals
+//@   ensures[C14] !c.pendingVals
+//@   modifies c.index, c.started, c.responseWriter.isWritten, c.request.Request, c.pendingVals
 //@   panics true
 //@   ensures ctxInv(c)
 //@   ensures ctxStep(old(ctxAligned(c)), old(c.started), old(c.responseWriter.isWritten), ctxAligned(c), c.started, c.responseWriter.isWritten)
@@ -233,6 +242,8 @@ package flamego
 //@   ensures ctxInv(result.(*context))
 //@   ensures result.(*context).handlers == handlers && result.(*context).action == nil
 //@   ensures result.(*context).index == 0 && result.(*context).started == 0
+//@   ghost before exit: result.(*context).pendingVals = false
+//@   ensures !result.(*context).pendingVals
 //@   ensures fresh(result.(*context).Injector) && fresh(result.(*context).responseWriter) && fresh(result.(*context).request)
 
 //@ func (*Flame).createContext
@@ -245,7 +256,7 @@ package flamego
 //@   requires handlersNonNil(handlers) && handlersNonNil(f.handlers)
 //@   ensures dyn(result) == type(*context) && fresh(result)
 //@   ensures ctxInv(result.(*context))
-//@   ensures result.(*context).index == 0 && result.(*context).started == 0
+//@   ensures result.(*context).index == 0 && result.(*context).started == 0 && !result.(*context).pendingVals
 //@   ensures result.(*context).action == f.action
 //@   ensures len(result.(*context).handlers) == len(f.handlers) + len(handlers)
 //@   ensures forall k int :: 0 <= k && k < len(f.handlers) ==> result.(*context).handlers[k] == f.handlers[k]
@@ -305,7 +316,7 @@ package flamego
 //@ functype contextCreator(w, r, params, handlers, urlPath) c
 //@   requires w != nil && r != nil && handlersNonNil(handlers)
 //@   ensures c != nil && dyn(c) == type(*context) && fresh(c) && ctxInv(c.(*context)) && fresh(c.(*context).request)
-//@   ensures c.(*context).index == 0 && c.(*context).started == 0 && fresh(c.(*context).responseWriter)
+//@   ensures c.(*context).index == 0 && c.(*context).started == 0 && fresh(c.(*context).responseWriter) && !c.(*context).pendingVals
 
 // The handler stored in a route leaf / the not-found handler: runs exactly one chain for the request.
 //@ functype route.Handler(w, req, params)
@@ -873,17 +884,17 @@ package flamego
 //@ define routeObjWF(x *Route) bool = x != nil && x.router != nil && x.leaves != nil && (forall m string :: has(x.leaves, m) ==> x.leaves[m] != nil && live(leafBase(x.leaves[m])))
 
 //@ func (*router).addRoute
-//@   props C08 C09 C10 C01 C11
+//@   props C08 C09 C10 C01 C11 C07
 //@   requires routerWF(r) && treeWF() && handler != nil
 //@   modifies maps(type(map[string]route.Leaf)), route.baseTree.leaves, route.baseTree.subtrees, route.baseTree.snapLeaves, route.baseTree.snapTrees, route.Segment.scratchIdx, elems(type([]route.Leaf)), elems(type([]route.Tree)),
 //@       route.Segment.str, route.Segment.strOnce.fired, route.Route.str, route.Route.strOnce.fired
 //@   panics true
 //@   ensures routerWF(r) && treeWF()
-//@   ensures[C10] old(shortcutInv(r)) ==> shortcutInv(r)
+//@   ensures[C10,C09,C07] old(shortcutInv(r)) ==> shortcutInv(r)
 //@   ensures routeObjWF(result) && fresh(result) && result.router == r
 //@   loop 0 invariant routerWF(r) && treeWF() && (len(methods) == 0 || (len(methods) == 1 && methods[0] == method))
 //@   loop 1 invariant routerWF(r) && treeWF() && leaves != nil && fresh(leaves) && (forall m string :: has(leaves, m) ==> leaves[m] != nil && live(leafBase(leaves[m])))
-//@   loop 1 invariant[C10] old(shortcutInv(r)) ==> shortcutInv(r)
+//@   loop 1 invariant[C10,C09,C07] old(shortcutInv(r)) ==> shortcutInv(r)
 //@   loop 1 invariant ast != nil && routeWF(ast) && (method == "*" ==> methods == httpMethods) && (method != "*" ==> len(methods) == 1 && (exists k int :: 0 <= k && k < len(httpMethods) && httpMethods[k] == methods[0]))
 
 // ---------------------------------------------------------------------------
@@ -921,7 +932,7 @@ package flamego
 //@   loop 0 invariant forall k int :: rangeindex < k && k < len(handlers) ==> handlers[k] == old(handlers[k])
 
 //@ func (*router).Route
-//@   props C11 C03 C04 C07
+//@   props C11 C03 C04 C07 C08
 //@   requires routerWF(r) && treeWF()
 //@   modifies maps(type(map[string]route.Leaf)), route.baseTree.leaves, route.baseTree.subtrees, route.baseTree.snapLeaves, route.baseTree.snapTrees, route.Segment.scratchIdx, elems(type([]route.Leaf)), elems(type([]route.Tree)),
 //@       route.Segment.str, route.Segment.strOnce.fired, route.Route.str, route.Route.strOnce.fired,
@@ -947,7 +958,7 @@ package flamego
 
 // method shortcuts: exactly one flat entry with that method (plus HEAD for GET while AutoHead is on)
 //@ func (*router).Get
-//@   props C11
+//@   props C11 C07 C09
 //@   requires routerWF(r) && treeWF()
 //@   modifies maps(type(map[string]route.Leaf)), route.baseTree.leaves, route.baseTree.subtrees, route.baseTree.snapLeaves, route.baseTree.snapTrees, route.Segment.scratchIdx, elems(type([]route.Leaf)), elems(type([]route.Tree)),
 //@       route.Segment.str, route.Segment.strOnce.fired, route.Route.str, route.Route.strOnce.fired,
@@ -1121,7 +1132,7 @@ package flamego
 //@   ensures forall i int :: 0 <= i && i < len(r) ==> r[i] == splitPart(s, sep, i)
 //@ define nLead(hs []Handler, k int) int = ite(k >= len(hs) || dyn(hs[k]) != type(string), 0, 1 + nLead(hs, k + 1))
 //@ func (*router).Routes
-//@   props C11 C08
+//@   props C11 C08 C10 C09
 //@   requires routerWF(r) && treeWF()
 //@   modifies maps(type(map[string]route.Leaf)), route.baseTree.leaves, route.baseTree.subtrees, route.baseTree.snapLeaves, route.baseTree.snapTrees, route.Segment.scratchIdx, elems(type([]route.Leaf)), elems(type([]route.Tree)),
 //@       route.Segment.str, route.Segment.strOnce.fired, route.Route.str, route.Route.strOnce.fired,
